@@ -89,8 +89,10 @@ impl<T> DualLinkedList<T> {
         self.len += 1;
         let node_ptr: *mut EventNode<T> = &mut *node;
 
-        // From back insert
-        let mut cur: *mut EventNode<T> = &mut *self.tail;
+        // From back insert, starting at the last real node (or head):
+        // the tail sentinel carries Duration::MAX and must stay the last
+        // node even for an event scheduled at Duration::MAX.
+        let mut cur: *mut EventNode<T> = self.tail.prev;
         loop {
             // SAFTEY:
             // There a two cases
